@@ -15,6 +15,8 @@ package main
 import (
 	"fmt"
 	"math/rand"
+	"regexp"
+	"strconv"
 	"strings"
 )
 
@@ -417,6 +419,7 @@ const c11Prelude = "function f() { return 1 }\n" +
 	"function g(a, b, c) { return a }\n" +
 	"function side(m) { print m; return 1 }\n" +
 	"function rec(n) { return rec(n + 1) }\n" +
+	"function dp($pa, $pb) { return $pa }\n" +
 	"BEGIN { cx = 5; sx = 5; ss = \"a\"; sa = [1, 2]; circ = [1]; circ[0] = circ; s3 = \"abc\"; se = \"\"; sb = true; so = {s: \"xy\", a: [\"pq\", 7]} }\n"
 
 type c11Kind struct {
@@ -702,6 +705,127 @@ func c11Positions() []c11Pos {
 }
 
 // expression contexts for deeper nesting (thorough tier): no output of their own
+// ---------------------------------------------------------------------------
+// more fault kinds: unknown $-names in binding positions, invalid regexes of every error kind
+
+// c11DollarKinds: an unknown $-prefixed name where a name is BOUND or stored into.  for-in loop
+// and index variables, assignment / op= / ++ / -- targets, member and index stores, calls and
+// method calls through it: a runtime error "unknown variable" (a $-name is never created
+// implicitly).  Function parameters and match pattern identifiers DO bind $-names -- for the
+// call / the case only: afterwards the name is unknown again.
+func c11DollarKinds() []c11Kind {
+	ks := []c11Kind{
+		{"unknown-dollar-forin-variable", "(match (0) { _ => { for ($nosuch in [1]) { } } })", true, false},
+		{"unknown-dollar-forin-index", "(match (0) { _ => { for (it, $nosuch in [1]) { } } })", true, false},
+		{"unknown-dollar-forin-both", "(match (0) { _ => { for ($nosuch, $nosuch2 in [1]) { } } })", true, false},
+		{"unknown-dollar-forin-variable-known-index", "(match (0) { _ => { for ($nosuch, ix in {a: 1}) { } } })", true, false},
+		{"unknown-dollar-forin-empty-array", "(match (0) { _ => { for ($nosuch in []) { } } })", true, false},
+		{"unknown-dollar-forin-index-empty-object", "(match (0) { _ => { for (it, $nosuch in {}) { } } })", true, false},
+		{"unknown-dollar-forin-object", "(match (0) { _ => { for ($nosuch in {a: 1}) { print \"A8\" } } })", true, false},
+		{"unknown-dollar-forin-string", "(match (0) { _ => { for ($nosuch, ix in \"xy\") { print \"A8\" } } })", true, false},
+		{"unknown-dollar-forin-body-prints", "(match (0) { _ => { for ($tag, $pos in [1, 2]) { print \"A8\", $pos, $tag } } })", true, false},
+		{"unknown-dollar-forin-nested-loop", "(match (0) { _ => { for (it in [1]) { for ($nosuch in [it]) { } } } })", true, false},
+		{"unknown-dollar-assign", "($nosuch = 1)", true, false},
+		{"unknown-dollar-assign-string", "($nosuch = \"v\")", true, false},
+		{"unknown-dollar-assign-chain", "(t6 = $nosuch = 1)", true, false},
+		{"unknown-dollar-plus-assign", "($nosuch += 1)", true, false},
+		{"unknown-dollar-minus-assign", "($nosuch -= 1)", true, false},
+		{"unknown-dollar-times-assign", "($nosuch *= 2)", true, false},
+		{"unknown-dollar-divide-assign", "($nosuch /= 2)", true, false},
+		{"unknown-dollar-postfix-incr", "($nosuch++)", true, false},
+		{"unknown-dollar-postfix-decr", "($nosuch--)", true, false},
+		{"unknown-dollar-prefix-incr", "(++$nosuch)", true, false},
+		{"unknown-dollar-prefix-decr", "(--$nosuch)", true, false},
+		{"unknown-dollar-member-store", "($nosuch.k = 1)", true, false},
+		{"unknown-dollar-index-store", "($nosuch[0] = 1)", true, false},
+		{"unknown-dollar-member-incr", "($nosuch.k++)", true, false},
+		{"unknown-dollar-call", "($nosuch(1))", true, false},
+		{"unknown-dollar-method-call", "($nosuch.length())", true, false},
+		{"unknown-dollar-is", "($nosuch is unknown)", true, false},
+		{"unknown-dollar-match-subject", "(match ($nosuch) { _ => 1 })", true, false},
+		{"unknown-dollar-name-index-like", "($indexx)", true, false},
+		{"unknown-dollar-name-file-like", "($files = 1)", true, false},
+		{"dollar-name-after-match-binding", "((match (1) { $mb => $mb }) + $mb)", true, false},
+		{"dollar-name-after-array-pattern-binding", "((match ([1, 2]) { [$ma, $mb] => $ma + $mb }) + $ma)", true, false},
+		{"dollar-name-after-match-block-binding", "(match (0) { _ => { match (1) { $mb => { t7 = $mb } }\n$mb = 2 } })", true, false},
+		{"dollar-name-after-call-binding", "(dp(1, 2) + $pa)", false, false},
+		{"dollar-name-second-parameter-after-call", "(dp(1) + ($pb = 1))", false, false},
+		{"dollar-forin-variable-named-like-parameter", "(match (0) { _ => { for ($pa in [dp(1)]) { } } })", false, false},
+	}
+	return ks
+}
+
+// c11RegexPatterns: patterns whose ONLY special construct sits among plain text, one (or more)
+// per error kind of Go's regexp/syntax, plus look-alikes that are valid.  regexp.Compile on the
+// very bytes decides which is which.
+var c11RegexPatterns = []string{
+	// missing closing )
+	"(ab", "a(b", "ab(", "(?:ab", "((a)b", "(", "happy :(",
+	// unexpected )
+	"ab)", ":)", ")", "a)b", "(a))", "foo)bar", "happy :)",
+	// missing closing ]
+	"[ab", "a[", "x[^a", "[a-", "[]a", "[", "a[]",
+	// invalid nested repetition operator / repetition of nothing
+	"a**", "a+*", "a*+", "ab??+", "a?*", "*a", "+a", "?a", "*", "a|*", "(*a)", "(+)", "^*a", "$+", "a{2}{3}{4}*", "a***",
+	// invalid repeat count
+	"x{2,1}", "a{1001}", "a{1000,1001}", "x{5,2}y", "a{99999}", "(a{500}){500}", "((a{100}){100}){100}",
+	// invalid escape, trailing backslash
+	"a\\8", "\\8", "a\\qb", "\\_", "x\\y", "\\pX", "\\p{Foo}", "a\\", "\\", "ab\\c\\",
+	// invalid or unsupported (? syntax, named groups
+	"(?z)", "a(?z)b", "(?P<n", "(?P<n>a)(?P<n>b)", "(?<", "(?i", "(?=a)", "(?!a)", "(?#c)", "(?", "(?P=n)", "(?P<>a)", "(?i)(?q)",
+	// invalid character class / range
+	"[z-a]", "[[:foo:]]", "[a-\\d]", "x[b-a]y", "[\\8]",
+	// invalid UTF-8
+	"\xff", "ab\xc3", "a\x80b", "\xe2\x82", "caf\xc3", "\xf8\x88\x80\x80\x80",
+	// valid look-alikes: literal ] } { , bounded repeats in range, escaped specials, empty alternatives
+	"a]", "a}", "a{", "a{,2}", "x{2}", "a{1000}", "a{2,1", "\\.", "a\\)", "\\(", "[)]", "(:)", "{", "}", "]", "a|", "|", "()", "a{1,2}{3}", "(?i)ab", "(?P<n>a)", "(?:ab)", "[]a]", "[a\\]]", "\\pL", "\\x41",
+	"ab", "xab", "^ab$", "a.b", "", "\\Qa)\\E", "a*?", "a+?", "(?s).", "caf\xc3\xa9",
+}
+
+func c11RegexErrClass(err error) string {
+	m := err.Error()
+	// "error parsing regexp: <code>: `...`"
+	m = strings.TrimPrefix(m, "error parsing regexp: ")
+	if i := strings.Index(m, ":"); i > 0 {
+		m = m[:i]
+	}
+	return strings.ReplaceAll(m, " ", "-")
+}
+
+// c11PatLits: the pattern as a jqawk string literal and (where it can be written) as a regex literal
+func c11PatLits(pat string) (str string, lit string) {
+	if !strings.ContainsAny(pat, "\"\n") {
+		str = "\"" + strings.ReplaceAll(pat, "\\", "\\\\") + "\""
+	}
+	if !strings.ContainsAny(pat, "/\n") && !strings.HasSuffix(pat, "\\") && pat != "" && !strings.HasPrefix(pat, "*") {
+		lit = "/" + pat + "/"
+	}
+	return
+}
+
+func c11RegexKinds() []c11Kind {
+	var ks []c11Kind
+	for _, pat := range c11RegexPatterns {
+		_, err := regexp.Compile(pat)
+		if err != nil {
+			str, lit := c11PatLits(pat)
+			name := "regex/" + c11RegexErrClass(err) + " " + strconv.QuoteToASCII(pat)
+			if str != "" {
+				ks = append(ks, c11Kind{name + " string", "(\"xaby\" ~ " + str + ")", true, false})
+				ks = append(ks, c11Kind{name + " string !~", "(\"" + strings.ToValidUTF8(strings.ReplaceAll(pat, "\\", ""), "") + "\" !~ " + str + ")", true, false})
+			}
+			if lit != "" {
+				ks = append(ks, c11Kind{name + " literal", "(\"xaby\" ~ " + lit + ")", true, false})
+			}
+		}
+	}
+	return ks
+}
+
+func init() {
+	c11Kinds = append(c11Kinds, c11DollarKinds()...)
+}
+
 var c11Nest = []string{"(g(1, §))", "([1, §][1])", "(0 + §)", "(§ || 0)", "(1 && §)", "(match (1) { _ => § })", "({a: §}.a)", "(-§)", "(g(§, 2))", "(nr = §)", "(match (§) { q => q })", "([§].length())"}
 
 func (p c11Pos) request(e string) (string, string, []string) {
@@ -787,6 +911,17 @@ func c11GenFaults(r *rand.Rand, tier string, emit func(Case)) {
 			emit(c11FaultCase(p, k, k.expr, ""))
 		}
 	}
+	// invalid regexes of every error kind: each in a plain statement, as the right operand of ~ in a
+	// pattern and in a selector, and at a sample of the other positions (thorough: at every position)
+	regexKinds := c11RegexKinds()
+	for _, k := range regexKinds {
+		for _, p := range ps {
+			if tier != "thorough" && p.name != "statement/BEGIN" && p.name != "pattern/operand" && p.name != "selector/whole" && p.name != "function/return-value" && !chance(r, 0.04) {
+				continue
+			}
+			emit(c11FaultCase(p, k, k.expr, ""))
+		}
+	}
 	// $index / $file before any input: only meaningful in BEGIN
 	for _, k := range []c11Kind{{"dollar-index-in-BEGIN", "($index)", true, false}, {"dollar-file-in-BEGIN", "($file)", true, false}} {
 		for _, p := range ps {
@@ -829,6 +964,8 @@ func c11GenFaults(r *rand.Rand, tier string, emit func(Case)) {
 		p, k := pick(r, ps), pick(r, c11Kinds)
 		if chance(r, 0.35) {
 			k = pick(r, stores)
+		} else if chance(r, 0.25) {
+			k = pick(r, regexKinds)
 		}
 		if p.sels != nil && !k.self || k.slow && !chance(r, 0.1) {
 			continue
@@ -911,4 +1048,428 @@ func init() {
 	register(Family{Name: "fault-unevaluated", Prop: "C11",
 		Rule: "the same fault expressions at 22 positions that are never evaluated (short-circuit, untaken branches/cases, bodies of loops that do not run, code after break/continue/return/next/exit, uncalled functions, rules without input): class ok and the output equals the harmless control's (group).",
 		Gen:  c11GenUnevaluated})
+}
+
+// ---------------------------------------------------------------------------
+// family: regex-error-kinds
+//
+// Every pattern of c11RegexPatterns as the right operand of ~ / !~ in a program that prints
+// before, around and after the match, written as a regex literal, a string, a variable, a
+// function argument, a run-time concatenation, a document field and in a rule pattern; the match
+// is first evaluated for the SECOND record.  Oracle: Go's regexp.Compile on the very pattern:
+// an error means the run stops there with a runtime error (output so far kept, nothing after);
+// otherwise the run completes and the match result is what regexp.MatchString gives.
+
+func c11GenRegexKinds(r *rand.Rand, tier string, emit func(Case)) {
+	forms := []string{"literal", "string", "variable", "argument", "concat", "doc-field", "rule-pattern", "negated", "begin-literal", "begin-string"}
+	for _, pat := range c11RegexPatterns {
+		re, cerr := regexp.Compile(pat)
+		str, lit := c11PatLits(pat)
+		row := "valid"
+		if cerr != nil {
+			row = c11RegexErrClass(cerr)
+		}
+		plain := strings.ToValidUTF8(strings.NewReplacer("\\", "", "\"", "").Replace(pat), "")
+		for _, mood := range []string{"happy " + plain, "plain text ab", plain} {
+			for _, form := range forms {
+				if mood == "" || tier != "thorough" && mood != "happy "+plain && !chance(r, 0.35) {
+					continue // (an empty mood is falsy: the match would not be evaluated for it)
+				}
+				operand, neg := "", false
+				head := "function m(s, p) { return s ~ p }\n"
+				begin := "BEGIN { print \"start\" }\n"
+				var test string
+				switch form {
+				case "literal", "rule-pattern", "begin-literal":
+					operand = lit
+				case "doc-field":
+					if !strings.ContainsAny(pat, "\"") && strings.ToValidUTF8(pat, "") == pat {
+						operand = "$.pat"
+					}
+				default:
+					operand = str
+				}
+				if operand == "" {
+					continue
+				}
+				switch form {
+				case "literal", "string", "doc-field":
+					test = "$.mood ~ " + operand
+				case "negated":
+					test, neg = "$.mood !~ "+operand, true
+				case "variable":
+					begin = "BEGIN { print \"start\"; pv = " + operand + " }\n"
+					test = "$.mood ~ pv"
+				case "argument":
+					test = "m($.mood, " + operand + ")"
+				case "concat":
+					h := r.Intn(len(pat) + 1)
+					a, _ := c11PatLits(pat[:h])
+					b, _ := c11PatLits(pat[h:])
+					if a == "" || b == "" {
+						continue
+					}
+					test = "$.mood ~ (" + a + " + " + b + ")"
+				}
+				doc := fmt.Sprintf(`[{"name": "a"}, {"name": "b", "mood": %s, "pat": %s}, {"name": "c", "mood": "other", "pat": "o"}]`, jsonString(mood), jsonString(strings.ToValidUTF8(pat, "")))
+				var prog, want string
+				wantClass := "ok"
+				hit := func(subject string) bool {
+					m := re.MatchString(subject)
+					if neg {
+						m = !m
+					}
+					return m
+				}
+				switch form {
+				case "begin-literal", "begin-string":
+					prog = fmt.Sprintf("BEGIN { print \"pre\"; r = %s ~ %s; print r; print \"post\" }\nEND { print \"end\" }\n", "\""+mood+"\"", operand)
+					if cerr != nil {
+						want, wantClass = "pre\n", "runtime"
+					} else {
+						want = fmt.Sprintf("pre\n%v\npost\nend\n", hit(mood))
+					}
+				case "rule-pattern":
+					prog = begin + "{ print \"rec\", $.name }\n$.mood && $.mood ~ " + operand + " { print \"hit\", $.name }\n{ print \"done\", $.name }\nEND { print \"end\" }\n"
+				default:
+					prog = head + begin + "{ print \"rec\", $.name; if ($.mood && " + test + ") { print \"hit\", $.name }\n print \"done\", $.name }\nEND { print \"end\" }\n"
+				}
+				if want == "" {
+					want = "start\nrec a\ndone a\nrec b\n"
+					if cerr != nil {
+						wantClass = "runtime"
+					} else {
+						if hit(mood) {
+							want += "hit b\n"
+						}
+						want += "done b\nrec c\n"
+						cpat := pat
+						if form == "doc-field" {
+							cpat = "o"
+						}
+						if m := regexp.MustCompile(cpat).MatchString("other"); m != neg {
+							want += "hit c\n"
+						}
+						want += "done c\nend\n"
+					}
+				}
+				wc, wo := wantClass, want
+				emit(Case{Req: RunReq(prog, nil, []File{{Name: "in.json", Data: []byte(doc)}}, false), Fields: c11Fields,
+					NonTrivial: func(i Resp) bool { return i["class"] == "runtime" || i["class"] == "ok" },
+					Meta:       metaProg(prog, "pattern", strconv.QuoteToASCII(pat), "regexp.Compile", row, "form", form, "subject", mood, "input", doc, "row", row, "col", form),
+					Oracle: func(i Resp) string {
+						if i["class"] != wc || string(i.Bytes("out")) != wo {
+							return fmt.Sprintf("C11: Go's regexp.Compile on the pattern %s says %s: expected class %s and output %q, got class %s and output %q", strconv.QuoteToASCII(pat), row, wc, wo, i["class"], i.Bytes("out"))
+						}
+						return ""
+					}})
+			}
+		}
+	}
+}
+
+// ---------------------------------------------------------------------------
+// family: dollar-binding
+//
+// $-prefixed names in binding positions that DO bind them (function parameters, identifiers of
+// match patterns) and in those that must not create them (for-in variables, stores), in one
+// program with output before and after: where the name is bound the run goes on and the name is
+// unknown again afterwards; everywhere else the run stops with a runtime error.
+
+func c11GenDollarBinding(r *rand.Rand, tier string, emit func(Case)) {
+	type tp struct {
+		name, prog, want, class string
+	}
+	names := []string{"$x", "$tag", "$nosuch", "$Index", "$indexes", "$file2", "$_", "$a1", "$FILE"}
+	for _, n := range names {
+		n2 := n + "q"
+		ts := []tp{
+			{"parameter", "function f(N) { print \"in\", N; return N + 1 }\n{ print \"rec\", $; print f($) }\nEND { print \"end\" }", "rec 1\nin 1\n2\nrec 2\nin 2\n3\nend\n", "ok"},
+			{"parameter-then-unknown", "function f(N) { return N + 1 }\n{ print \"rec\", $; print f($); print N; print \"after\" }", "rec 1\n2\n", "runtime"},
+			{"parameter-missing-argument", "function f(a, N) { print \"in\", N; N = 5; return N }\nBEGIN { print \"pre\"; print f(1); print \"post\" }", "pre\nin null\n5\npost\n", "ok"},
+			{"parameter-assigned-inside", "function f(N) { N = N + 10; N++; return N }\nBEGIN { print \"pre\"; print f(1); print \"post\" }", "pre\n12\npost\n", "ok"},
+			{"parameter-forin-inside", "function f(N) { for (N in [7, 8]) print \"it\", N\n return N }\nBEGIN { print \"pre\"; print f(1); print \"post\" }", "pre\nit 7\nit 8\n8\npost\n", "ok"},
+			{"parameter-visible-in-callee", "function g() { return N * 2 }\nfunction f(N) { return g() }\nBEGIN { print \"pre\"; print f(4); print g(); print \"post\" }", "pre\n8\n", "runtime"},
+			{"match-identifier", "{ print \"rec\", $; print match ($) { N => N + 1 }\n print \"after\" }", "rec 1\n2\nafter\nrec 2\n3\nafter\n", "ok"},
+			{"match-identifier-then-unknown", "{ print \"rec\", $; print match ($) { N => N + 1 }\n print N; print \"after\" }", "rec 1\n2\n", "runtime"},
+			{"match-array-pattern", "BEGIN { print \"pre\"; print match ([1, 2]) { [N, M] => N + M }\n print \"post\" }", "pre\n3\npost\n", "ok"},
+			{"match-block-body-store", "BEGIN { print \"pre\"; match (1) { N => { N = N + 5; print N } }\n print \"post\" }", "pre\n6\npost\n", "ok"},
+			{"forin-variable", "BEGIN { print \"start\" }\n{ print \"rec\", $.name; if ($.tags is array) { for (N, M in $.tags) { print \" tag\", M, N } }\n print \"done\", $.name }\nEND { print \"end\" }", "start\nrec a\ndone a\nrec b\n", "runtime"},
+			{"forin-index", "BEGIN { print \"start\" }\n{ print \"rec\", $.name; if ($.tags is array) { for (t, M in $.tags) { print \" tag\", M, t } }\n print \"done\", $.name }\nEND { print \"end\" }", "start\nrec a\ndone a\nrec b\n", "runtime"},
+			{"forin-variable-not-reached", "BEGIN { print \"start\" }\n{ print \"rec\", $.name; if ($.nothing is array) { for (N in $.tags) { print \" tag\", N } }\n print \"done\", $.name }\nEND { print \"end\" }", "start\nrec a\ndone a\nrec b\ndone b\nrec c\ndone c\nend\n", "ok"},
+			{"forin-variable-in-function", "function f(a) { for (N in a) print \"it\", N\n return 1 }\nBEGIN { print \"pre\"; f([]); print \"post\" }", "pre\n", "runtime"},
+			{"forin-variable-twice", "BEGIN { print \"pre\"; for (i = 0; i < 2; i++) { print i; if (i == 1) { for (N in [1]) print \"in\" } }\n print \"post\" }", "pre\n0\n1\n", "runtime"},
+			{"assign-then-read", "BEGIN { print \"pre\"; N = 1; print \"post\", N }", "pre\n", "runtime"},
+			{"incr-in-pattern", "BEGIN { print \"pre\" }\nN++ > 0 { print \"body\" }\nEND { print \"end\" }", "pre\n", "runtime"},
+		}
+		for _, t := range ts {
+			prog := strings.ReplaceAll(strings.ReplaceAll(t.prog, "N", n), "M", n2)
+			prog = strings.ReplaceAll(prog, "E"+n+"D", "END") // the template's END / BEGIN keywords contain N
+			prog = strings.ReplaceAll(prog, "BEGI"+n, "BEGIN")
+			doc := `[1, 2]`
+			if strings.Contains(prog, "$.name") {
+				doc = `[{"name": "a"}, {"name": "b", "tags": ["x", "y"]}, {"name": "c"}]`
+			}
+			wc, wo := t.class, t.want
+			emit(Case{Req: RunReq(prog, nil, []File{{Name: "in.json", Data: []byte(doc)}}, false), Fields: c11Fields,
+				NonTrivial: func(i Resp) bool { return i["class"] == "runtime" || i["class"] == "ok" },
+				Meta:       metaProg(prog, "name", n, "position", t.name, "input", doc, "row", t.name, "col", n),
+				Oracle: func(i Resp) string {
+					if i["class"] != wc || string(i.Bytes("out")) != wo {
+						return fmt.Sprintf("C11: $-name %s as %s: expected class %s and output %q (a $-name is bound only by a parameter list or a match pattern, for that call / case; it is never created implicitly), got class %s and output %q", n, t.name, wc, wo, i["class"], i.Bytes("out"))
+					}
+					return ""
+				}})
+		}
+	}
+}
+
+// ---------------------------------------------------------------------------
+// family: fault-output-through-binary
+//
+// Output printed before a fault is kept -- also by the real binary, whose stdout is a pipe:
+// programs that print a little, a lot (more than 64 KiB, and exactly 65535 / 65536 / 65537
+// bytes) with and without a trailing newline, then hit a runtime fault, a JSON error in the
+// input, a fault or a syntax error in a -r selector, in the first JSON value, in the same value
+// as earlier output and in a later one.  The same request goes to the in-process evaluator
+// (`run`) and to the binary (`cli`): stdout must be the same bytes, equal to the expectation
+// computed here, and to the model's.
+
+func c11GenFaultBinary(r *rand.Rand, tier string, emit func(Case)) {
+	// quotients 12 / (2 - v) for the values used are integers
+	quot := map[int]string{5: "-4", 1: "12", 3: "-12", 0: "6", -1: "4", 4: "-6", 8: "-2", 14: "-1", -2: "3", -4: "2", -10: "1"}
+	var vals []int
+	for v := range quot {
+		vals = append(vals, v)
+	}
+	sortInts(vals)
+	type amount struct {
+		name, stmt, out string
+	}
+	line := "0123456789abcdefghijklmnopqrstuvwxyzABCDEFGHIJKLMNOPQRSTUVWXYZ.,"
+	fill := func(n int) amount { // exactly n bytes, no newline anywhere
+		// s doubles up to 1024 bytes; n = q * 1024 + rest
+		q, rest := n/1024, n%1024
+		st := fmt.Sprintf("s = \"%s\"; while (s.length() < 1024) s = s + s\n for (i = 0; i < %d; i++) printf(\"%%s\", s)\n", line[:64], q)
+		out := strings.Repeat(strings.Repeat(line[:64], 16), q)
+		if rest > 0 {
+			st += fmt.Sprintf(" printf(\"%%s\", \"%s\")\n", strings.Repeat("y", rest))
+			out += strings.Repeat("y", rest)
+		}
+		return amount{fmt.Sprintf("exactly-%d-bytes-no-newline", n), st, out}
+	}
+	amounts := []amount{
+		{"nothing", "", ""},
+		{"one-line", "print \"burst\"\n", "burst\n"},
+		{"no-trailing-newline", "printf(\"burst\")\n", "burst"},
+		{"lines-then-partial-line", "print \"b1\"; print \"b2\"; printf(\"%v;\", 3)\n", "b1\nb2\n3;"},
+		{"70-KiB-of-lines", "for (i = 0; i < 1100; i++) print \"" + line + "\"\n", strings.Repeat(line+"\n", 1100)},
+		{"200-KiB-then-partial-line", "for (i = 0; i < 3200; i++) print \"" + line + "\"\n printf(\"tail\")\n", strings.Repeat(line+"\n", 3200) + "tail"},
+		fill(65535), fill(65536), fill(65537), fill(4096), fill(131072),
+	}
+	type fault struct {
+		name  string
+		sels  []string
+		input string // the JSON text; FV marks where the faulting record's value goes
+		class string
+		// how the run goes: the values (arrays of records) processed, the index of the record at which it stops
+		values [][]int
+	}
+	n := tierN(tier, 2, 8)
+	for _, am := range amounts {
+		for rep := 0; rep < n; rep++ {
+			// 1-3 values of 1-3 records; the run stops in value fv at record fr
+			nv := 1 + r.Intn(3)
+			values := make([][]int, nv)
+			for i := range values {
+				values[i] = make([]int, 1+r.Intn(3))
+				for j := range values[i] {
+					values[i][j] = pick(r, vals)
+				}
+			}
+			fv := r.Intn(nv)
+			if rep%2 == 1 {
+				fv = nv - 1
+			}
+			fr := r.Intn(len(values[fv]))
+			for _, fk := range []string{"runtime-divide", "runtime-regex", "runtime-unknown-dollar", "json-malformed", "json-truncated", "selector-runtime", "selector-syntax", "runtime-in-END", "runtime-in-BEGIN", "none"} {
+				if tier != "thorough" && am.name != "one-line" && am.name != "no-trailing-newline" && !chance(r, 0.5) {
+					continue
+				}
+				render := func(vs [][]int, bad string) string {
+					var sb strings.Builder
+					for i, v := range vs {
+						parts := make([]string, len(v))
+						for j, x := range v {
+							parts[j] = fmt.Sprint(x)
+						}
+						sb.WriteString("[" + strings.Join(parts, ", ") + "]")
+						if i < len(vs)-1 || bad != "" {
+							sb.WriteString("\n")
+						}
+					}
+					sb.WriteString(bad)
+					return sb.String()
+				}
+				prePrint, preOut := "print \"start\"", "start\n"
+				if rep%3 == 2 {
+					prePrint, preOut = "printf(\"start;\")", "start;"
+				}
+				faultStmt := "x = 12 / (2 - $)"
+				var sels []string
+				wantClass, wantExit := "runtime", "1"
+				vs := make([][]int, nv)
+				for i := range vs {
+					vs[i] = append([]int{}, values[i]...)
+				}
+				input := ""
+				stopV, stopR := fv, fr // the record at which the run stops (after "rec" and the burst)
+				stopBefore := false    // the run stops before anything of value stopV is processed
+				switch fk {
+				case "runtime-divide":
+					vs[fv][fr] = 2
+				case "runtime-regex":
+					vs[fv][fr] = 2
+					faultStmt = "if ($ == 2) { x = \"a\" ~ \"a)\" } else x = 12 / (2 - $)"
+				case "runtime-unknown-dollar":
+					vs[fv][fr] = 2
+					faultStmt = "if ($ == 2) { for ($t in [1]) { } } else x = 12 / (2 - $)"
+				case "json-malformed":
+					input = render(vs[:fv], pick(r, []string{"[4, }", "{\"a\" 1}", "[1, 2", "nul", "]", "\"abc"}))
+					wantClass, stopBefore = "json", true
+				case "json-truncated":
+					input = render(vs[:fv], "[1, 2, ")
+					wantClass, stopBefore = "json", true
+				case "selector-runtime":
+					// the selector fails for the value whose first record is 2
+					vs[fv][0] = 2
+					sels = []string{"match ($[0]) { 2 => 1 / 0, _ => $ }"}
+					stopBefore = true
+				case "selector-syntax":
+					sels = []string{pick(r, []string{"$ +", "$[", "(", "$ $", "1 = 2"})}
+					wantClass, stopBefore, stopV = "syntax", true, 0
+				case "runtime-in-END", "runtime-in-BEGIN", "none":
+					stopV = -1
+				}
+				for i := range vs { // no accidental fault elsewhere
+					for j := range vs[i] {
+						if vs[i][j] == 2 && !(i == fv && (j == fr || fk == "selector-runtime" && j == 0)) || (fk == "runtime-in-END" || fk == "runtime-in-BEGIN" || fk == "none" || strings.HasPrefix(fk, "json") || fk == "selector-syntax") && vs[i][j] == 2 {
+							vs[i][j] = 5
+						}
+					}
+				}
+				if fk == "selector-runtime" {
+					for i := 0; i < fv; i++ {
+						if vs[i][0] == 2 {
+							vs[i][0] = 5
+						}
+					}
+					for j := 1; j < len(vs[fv]); j++ {
+						if vs[fv][j] == 2 {
+							vs[fv][j] = 5
+						}
+					}
+				}
+				if input == "" {
+					input = render(vs, "")
+					if chance(r, 0.5) {
+						input += "\n"
+					}
+				}
+				beginBody, endBody := prePrint, "print \"end\""
+				if fk == "runtime-in-BEGIN" {
+					beginBody = prePrint + "\n " + am.stmt + " x = 1 / 0; print \"not reached\""
+				}
+				if fk == "runtime-in-END" {
+					endBody = "print \"END\"\n " + am.stmt + " x = [] < 1; print \"not reached\""
+				}
+				prog := "BEGIN { " + beginBody + " }\n{ print \"rec\", $\n " + am.stmt + " " + faultStmt + "; print \"ok\", x }\nEND { " + endBody + " }\n"
+				// the expected output
+				var want strings.Builder
+				want.WriteString(preOut)
+				if fk == "runtime-in-BEGIN" {
+					want.WriteString(am.out)
+				} else if fk != "selector-syntax" {
+				values:
+					for i, v := range vs {
+						if stopBefore && i == stopV {
+							break
+						}
+						for j, x := range v {
+							want.WriteString(fmt.Sprintf("rec %d\n", x))
+							want.WriteString(am.out)
+							if i == stopV && j == stopR && !stopBefore {
+								break values
+							}
+							want.WriteString("ok " + quot[x] + "\n")
+						}
+					}
+					if fk == "runtime-in-END" {
+						want.WriteString("END\n" + am.out)
+					}
+					if fk == "none" {
+						want.WriteString("end\n")
+						wantClass, wantExit = "ok", "0"
+					}
+				}
+				wo, wc, we := want.String(), wantClass, wantExit
+				g := fmt.Sprintf("fob/%s/%s/%d", am.name, fk, rep)
+				meta := func(via string) map[string]string {
+					m := metaProg(prog, "amount", am.name, "fault", fk, "input", input, "through", via, "expected-output-bytes", fmt.Sprint(len(wo)), "row", fk, "col", am.name+" "+via)
+					if sels != nil {
+						m["selectors"] = strings.Join(sels, "  ||  ")
+					}
+					return m
+				}
+				emit(Case{Req: RunReq(prog, sels, []File{{Name: "in.json", Data: []byte(input)}}, false), Fields: []string{"class", "out"}, Group: g, Meta: meta("library (run)"),
+					NonTrivial: func(i Resp) bool { return i["class"] == wc },
+					Oracle: func(i Resp) string {
+						if i["class"] != wc || string(i.Bytes("out")) != wo {
+							return fmt.Sprintf("C11: expected class %s and exactly the %d bytes printed before the fault (…%q), got class %s and %d bytes (…%q)", wc, len(wo), c11Tail(wo), i["class"], len(i.Bytes("out")), c11Tail(string(i.Bytes("out"))))
+						}
+						return ""
+					}})
+				var argv []string
+				for _, s := range sels {
+					argv = append(argv, "-r", s)
+				}
+				argv = append(argv, prog, "in.json")
+				emit(Case{Req: CliReq(argv, nil, false, []CliFile{{Name: "in.json", Data: []byte(input)}}, ""), Fields: []string{"exit", "out", "err"}, Group: g, GroupFields: []string{"out"}, Meta: meta("binary (cli)"),
+					NonTrivial: func(i Resp) bool { return i["exit"] == we },
+					Oracle: func(i Resp) string {
+						if i["exit"] != we || (we == "1") != (i["err"] == "1") || string(i.Bytes("out")) != wo {
+							return fmt.Sprintf("C11: the binary must exit %s (error message on stderr: %v) with exactly the %d bytes printed before the fault on stdout (…%q); got exit %s, stderr %q, %d bytes (…%q)", we, we == "1", len(wo), c11Tail(wo), i["exit"], i.Bytes("stderr"), len(i.Bytes("out")), c11Tail(string(i.Bytes("out"))))
+						}
+						return ""
+					}})
+			}
+		}
+	}
+}
+
+func c11Tail(s string) string {
+	if len(s) > 60 {
+		return s[len(s)-60:]
+	}
+	return s
+}
+
+func sortInts(a []int) {
+	for i := 1; i < len(a); i++ {
+		for j := i; j > 0 && a[j] < a[j-1]; j-- {
+			a[j], a[j-1] = a[j-1], a[j]
+		}
+	}
+}
+
+func init() {
+	register(Family{Name: "regex-error-kinds", Prop: "C11",
+		Rule: "about 150 patterns whose only special construct sits among plain text, several per error kind of Go's regexp/syntax (missing `)`, unexpected `)` incl. the witness `:)`, missing `]`, invalid nested repetition `a**` `a+*`, missing repetition argument `*a` `+a` `?a`, invalid repeat count `x{2,1}` `a{1001}` and nested oversized repeats, invalid escape `\\8` `\\q`, trailing backslash, invalid / unsupported `(?z)` `(?=a)` `(?P<n` duplicate group names, invalid class range `[z-a]` `[[:foo:]]`, invalid UTF-8) plus valid look-alikes (`a]` `a}` `a{` `a{,2}` `a{2,1` `\\.` `[)]` `(:)` `a|` `()` ...), as regex literal, string, variable, function argument, run-time concatenation, document field, rule pattern, under !~, and in BEGIN; subjects that contain the pattern's own text; the match is first evaluated for the second of three records. Oracle (implementation only): regexp.Compile on the very pattern decides between a runtime error there (output so far kept, nothing after) and the regexp.MatchString result; compared with the model where its regex port answers.",
+		Gen:  c11GenRegexKinds})
+	register(Family{Name: "dollar-binding", Prop: "C11",
+		Rule: "9 unknown $-names x 17 programs that put the name into a binding position: function parameter (bound for the call: used, assigned, looped over, seen by a callee; unknown again afterwards), identifier of a match pattern incl. array patterns and block bodies (bound for the case; unknown afterwards), for-in loop variable and index variable (runtime error when the loop statement is reached, also over an empty array, in a function, in a later iteration; no error when not reached), assignment target, ++ in a rule pattern; output before and after. Oracle: exact class and output.",
+		Gen:  c11GenDollarBinding})
+	register(Family{Name: "fault-output-through-binary", Prop: "C11",
+		Rule: "programs that print in BEGIN, per record and in END -- nothing, one line, text without a trailing newline, lines followed by a partial line, 70 KiB and 200 KiB of lines, and exactly 4096 / 65535 / 65536 / 65537 / 131072 bytes without any newline -- before the run is stopped by a runtime fault (division, invalid regex, unknown $-name as for-in variable) at a random record of a random value of a 1-3 value stream, by malformed or truncated JSON after 0-2 complete values, by a -r selector that fails for a later value or does not parse, by a fault in END or in BEGIN, and fault-free controls; each as a `run` request (in-process evaluator) and as a `cli` request (the real binary, stdout a pipe). Oracle: class / exit status and exactly the bytes printed before the fault (computed by the generator), the same bytes from the library and from the binary (group); both are also compared with the model.",
+		Gen:  c11GenFaultBinary})
 }
